@@ -1,5 +1,7 @@
 (* Wire encoding of graph values carried by a state:
-   graph : (((id state) ...) ((dest ((origin weight) ...)) ...)) ; graph stack oldest-first. *)
+   graph : (((id state) ...) ((dest ((origin weight) ...)) ...)) ; graph stack oldest-first;
+   nodes sorted by id, incoming-edge lists sorted by destination.  Node ids are ABSOLUTE (the real ids of
+   the process-global counter; id protocol: header of Model/IGraph.v), nothing is renamed. *)
 From Coq Require Import ZArith List Bool.
 From PushModel Require Import Base.Sx Base.F32 Model.GraphT.
 Import ListNotations.
